@@ -2181,3 +2181,45 @@ async fn d53_version_newer_than_a_replace_is_lost_in_compaction() {
 		let _ = tokio::time::timeout(std::time::Duration::from_secs(10), tree.close()).await;
 	}
 }
+
+// D54 (probe): out-of-order timestamps (allowed with the version index) while the versions are still in a memtable
+#[tokio::test(flavor = "multi_thread")]
+async fn d54_out_of_order_timestamps_in_a_memtable() {
+	use crate::transaction::HistoryOptions;
+	let d = td();
+	let opts = mk_opts(d.path().to_path_buf(), |o| {
+		o.enable_versioning = true;
+		o.enable_vlog = true;
+		o.vlog_value_threshold = 0;
+		o.enable_versioned_index = true;
+	});
+	let tree = Tree::new(Arc::clone(&opts)).unwrap();
+	for (v, ts) in [(&b"v200"[..], 200u64), (&b"v100"[..], 100u64)] {
+		let mut tx = tree.begin().unwrap();
+		tx.set_at(b"k", v, ts).unwrap();
+		tx.commit().await.unwrap();
+	}
+	let hist = |tree: &Tree, range: Option<(u64, u64)>| {
+		let tx = tree.begin().unwrap();
+		let mut ho = HistoryOptions::new();
+		if let Some((a, b)) = range {
+			ho = ho.with_ts_range(a, b);
+		}
+		let mut it = tx.history_with_options(&b"k"[..], &b"l"[..], &ho).unwrap();
+		let mut v = vec![];
+		let mut ok = it.seek_first().unwrap();
+		while ok {
+			v.push(it.key().timestamp());
+			ok = it.next().unwrap();
+		}
+		v
+	};
+	let at = |tree: &Tree, t: u64| tree.begin().unwrap().get_at(b"k", t).unwrap().map(|v| String::from_utf8_lossy(&v).to_string());
+	let before = (hist(&tree, None), hist(&tree, Some((150, 250))), at(&tree, 150), at(&tree, 250));
+	tree.flush().unwrap();
+	let after = (hist(&tree, None), hist(&tree, Some((150, 250))), at(&tree, 150), at(&tree, 250));
+	println!("D54 before flush: {before:?}\nD54 after flush:  {after:?}");
+	let _ = tokio::time::timeout(std::time::Duration::from_secs(10), tree.close()).await;
+	assert_eq!(before, after, "D54: answers differ before and after the flush");
+	assert_eq!(after.0, vec![200, 100], "newest first");
+}
